@@ -80,13 +80,19 @@ def _m_s_islnk(m):
 PROXY = (SymQuot, SymInt, SymBool, SymBytes, SymBytesIO, SymStr)
 
 
+_PROXY_SET = frozenset(PROXY) | {SymByteArray}
+
+
 def has_sym(x, depth=3):
-    """does x (shallowly nested) contain a proxy object?"""
-    if isinstance(x, PROXY):
+    """does x (shallowly nested) contain a proxy object?  (exact type tests: isinstance() would call
+    __class__ through user-defined __getattribute__ methods of the code under test)"""
+    tx = type(x)
+    if tx in _PROXY_SET:
         return True
-    if depth and isinstance(x, (list, tuple)) and len(x) <= 4096:
+    if depth and (tx is list or tx is tuple) and len(x) <= 4096:
         for e in x:
-            if isinstance(e, PROXY) or (isinstance(e, (list, tuple)) and has_sym(e, depth - 1)):
+            te = type(e)
+            if te in _PROXY_SET or ((te is list or te is tuple) and has_sym(e, depth - 1)):
                 return True
     return False
 
